@@ -291,7 +291,10 @@ def tempfile_decorator(func):
             except Exception as e:
                 raise e
             finally:
-                os.unlink(f.name)
+                # The cache file can already be gone, e.g. when overwriting it
+                # failed half way: don't let the cleanup mask the real error
+                if os.path.exists(f.name):
+                    os.unlink(f.name)
 
         else:
             # FIXME: it's a string, so it's probably a filename, but we should
